@@ -157,6 +157,10 @@ def _paramexpand(parserobj, string, sindex):
         # XXX 7863
         # TODO not start enough, doesn't consider escaping
         zindex = string.find('}', zindex + 1)
+        if zindex == -1:
+            # no closing brace in this word (the tokenizer only lets that
+            # through in quoted text): not an expansion, step over the '$'
+            return None, sindex + 1
         node = ast.node(kind='parameter', value=string[sindex+2:zindex],
                         pos=(sindex, zindex+1))
         # TODO
